@@ -15,9 +15,26 @@ class Deadlock(Exception):
   pass
 
 
+READS = {'load_study', 'get_trial', 'list_trials', 'max_trial_id', 'list_studies', 'get_suggestion_operation',
+         'list_suggestion_operations', 'max_suggestion_operation_number', 'get_early_stopping_operation'}
+
+
+def independent(e1, e2):
+  """Conservative independence of two pending events of different threads (for sleep sets): two
+  datastore READS commute; a thread start commutes with everything; everything else (writes, lock
+  acquisitions — the segment after an event may release a lock) is treated as dependent."""
+  if e1[0] == 'start' or e2[0] == 'start':
+    return True
+  if e1[0] == 'ds' and e2[0] == 'ds':
+    return e1[1] in READS and e2[1] in READS
+  return False
+
+
 class Controller:
-  def __init__(self, choices):
+  def __init__(self, choices, sleep=None):
     self.choices = list(choices)       # forced choices for the first decision points
+    self.sleep = dict(sleep or {})     # tid -> pending event: asleep after the forced prefix
+    self.blocked = False               # every enabled thread was asleep at some point: redundant run
     self.trace = []                    # (chosen tid, sorted enabled tids, event) per decision point
     self.cv = threading.Condition()
     self.waiting = {}                  # tid -> event it wants to perform
@@ -67,11 +84,25 @@ class Controller:
           # release everyone so that threads can die
           raise Deadlock(dict(self.waiting))
         i = len(self.trace)
-        if i < len(self.choices) and self.choices[i] in enabled:
+        forced = i < len(self.choices) and self.choices[i] in enabled
+        if forced:
           pick = self.choices[i]
+          awake = [pick]
+          sleep_here = {}
         else:
-          pick = enabled[0]
-        self.trace.append((pick, enabled, self.waiting[pick]))
+          awake = [t for t in enabled if t not in self.sleep]
+          sleep_here = dict(self.sleep)
+          if not awake:
+            self.blocked = True
+            awake = []
+            pick = enabled[0]
+          else:
+            pick = awake[0]
+        ev = self.waiting[pick]
+        self.trace.append((pick, enabled, ev, list(awake), sleep_here, dict(self.waiting)))
+        if not forced or i == len(self.choices) - 1:
+          # executing `ev` wakes every sleeping thread whose pending event depends on it
+          self.sleep = {t: e for t, e in self.sleep.items() if t != pick and independent(e, ev)}
         self.baton = pick
         self.cv.notify_all()
 
@@ -138,14 +169,14 @@ def instrument(sv, ctl):
     setattr(ds, m, make(fn, m))
 
 
-def run_schedule(backend, prefix, reqs, choices):
+def run_schedule(backend, prefix, reqs, choices, sleep=None):
   """Runs `reqs` (one per thread) concurrently under the forced `choices`. Returns
   (responses, final snapshot, trace, events, deadlock)."""
   rr = svcreal.RealRunner(backend)
   for r in prefix:
     rr.step(r)
   before = rr.snapshot()
-  ctl = Controller(choices)
+  ctl = Controller(choices, sleep)
   instrument(rr.sv, ctl)
   resps = [None] * len(reqs)
 
@@ -190,24 +221,38 @@ def run_schedule(backend, prefix, reqs, choices):
       t.join(timeout=10)
   rr.py.Suggest, rr.py.EarlyStop = orig_suggest, orig_es
   final = None if deadlock else rr.snapshot()
-  return {'resps': resps, 'final': final, 'before': before, 'trace': ctl.trace, 'events': ctl.events, 'deadlock': deadlock}
+  return {'resps': resps, 'final': final, 'before': before, 'trace': ctl.trace, 'events': ctl.events, 'deadlock': deadlock, 'blocked': ctl.blocked}
 
 
-def explore(backend, prefix, reqs, limit=20000):
-  """All schedules (DFS). Yields run results."""
-  stack = [[]]
+def explore(backend, prefix, reqs, limit=20000, use_sleep=True):
+  """All schedules up to commutation of independent events (stateless DFS with sleep sets).
+  Yields run results; `blocked` runs (redundant) are yielded too, flagged."""
+  stack = [([], {})]
   seen = 0
   while stack and seen < limit:
-    choices = stack.pop()
-    res = run_schedule(backend, prefix, reqs, choices)
+    choices, sleep0 = stack.pop()
+    res = run_schedule(backend, prefix, reqs, choices, sleep0 if use_sleep else None)
     seen += 1
     trace = res['trace']
-    # branch on every decision point at or after len(choices) that had alternatives
-    for i in range(len(trace) - 1, len(choices) - 1, -1):
-      pick, enabled, _ = trace[i]
-      for alt in enabled:
-        if alt > pick:
-          stack.append([t[0] for t in trace[:i]] + [alt])
+    if not res.get('blocked'):
+      for i in range(len(trace) - 1, len(choices) - 1, -1):
+        pick, enabled, ev, awake, sleep_here, waiting = trace[i]
+        if use_sleep:
+          done = [pick]
+          for alt in awake:
+            if alt == pick:
+              continue
+            ev_alt = waiting[alt]
+            sl = dict(sleep_here)
+            for d in done:
+              sl[d] = waiting[d]
+            child_sleep = {t: e for t, e in sl.items() if t != alt and independent(e, ev_alt)}
+            stack.append(([t[0] for t in trace[:i]] + [alt], child_sleep))
+            done.append(alt)
+        else:
+          for alt in enabled:
+            if alt > pick:
+              stack.append(([t[0] for t in trace[:i]] + [alt], {}))
     res['choices'] = [t[0] for t in trace]
     yield res
 
